@@ -96,13 +96,14 @@ def main():
         """mk(container dict -> callable); compare every container combination against f64"""
         nonlocal n
         ref = outcome(mk({k: conts[k]["f64"] for k in names}))
-        kinds = sorted(set.intersection(*[set(conts[k]) for k in names]))
+        # a kind that some argument cannot take (e.g. int64 for fractional weights) falls back to float64 for it
+        kinds = sorted(set.union(*[set(conts[k]) for k in names]))
         for kind in kinds:
             if kind == "f64":
                 continue
             n += 1
             stats[f"{api}:{kind}"] = stats.get(f"{api}:{kind}", 0) + 1
-            got = outcome(mk({k: conts[k][kind] for k in names}))
+            got = outcome(mk({k: conts[k].get(kind, conts[k]["f64"]) for k in names}))
             same = (ref[0] == got[0]) and (close(ref[1], got[1]) if ref[0] == "ok" else ref[1] == got[1])
             if not same and sum(1 for f in fails if (f['case'].get('api'), f['case'].get('container')) == (api, kind)) < 1:
                 fails.append(dict(case=dict(api=api, container=kind, data={k: [float(v) for v in conts[k]["f64"]] for k in names}),
@@ -114,8 +115,10 @@ def main():
         integral = rng.random() < 0.6
         def draw(lo, hi):
             return [float(rng.randint(lo, hi)) if integral else rng.choice([0.5, 1.25, 2.0, 3.5, 1.0, 4.0, 2.75]) for _ in range(k)]
-        y, z, w = draw(1, 6), draw(1, 6), draw(1, 4)
-        C = dict(y=containers(y, integral), z=containers(z, integral), w=containers(w, integral))
+        y, z = draw(1, 6), draw(1, 6)
+        wint = rng.random() < 0.5
+        w = [float(rng.randint(1, 4)) if wint else rng.choice([0.25, 0.5, 1.25, 2.75, 0.75]) for _ in range(k)]
+        C = dict(y=containers(y, integral), z=containers(z, integral), w=containers(w, wint))
         # scores
         sfs = [("SquaredError", SquaredError()), ("PoissonDeviance", PoissonDeviance()), ("GammaDeviance", GammaDeviance()),
                ("PinballLoss(0.3)", PinballLoss(level=0.3)), ("HES(1.5,0.2)", HomogeneousExpectileScore(1.5, 0.2)), ("HES(-1,0.5)", HomogeneousExpectileScore(-1, 0.5)),
